@@ -1353,8 +1353,13 @@ func (n *RegexNode) Format(buf *bytes.Buffer, indent string, onNewLine bool) {
 		onNewLine = true
 	}
 	writeIndent(buf, indent, onNewLine)
+	literal := n.Literal
+	if literal == "" && n.Regex != nil {
+		// Node was not created by the parser, escape slashes '/' the inverse of newRegex
+		literal = strings.Replace(n.Regex.String(), "/", `\/`, -1)
+	}
 	buf.WriteByte('/')
-	buf.WriteString(n.Literal)
+	buf.WriteString(literal)
 	buf.WriteByte('/')
 }
 
